@@ -156,6 +156,7 @@ impl CoCase {
                     if *thread { ",thread" } else { "" }
                 ),
                 Action::Drop => "Drop".into(),
+                Action::FireAll => "FireAll".into(),
             })
             .collect();
         format!(
